@@ -172,6 +172,28 @@ func (w *world) prepare(i int, st WStep) (call func(in *Inst) error, post func()
 				w.tracked[s] = true
 			}
 		}
+	case "badverify":
+		// Verify(remember=true) of a proof with one wrong hash: it has to be refused (that is C03's
+		// business and not asserted here) and, refused or not, must leave nothing false behind - the
+		// state checks that follow every step see to that
+		if err := w.liveCheck(i, st.Set); err != nil {
+			return nil, nil, err
+		}
+		hs := f.HashesOf(st.Set)
+		proof := f.View().Proof(hs)
+		if len(proof.Proof) > 0 {
+			proof.Proof = cloneHashes(proof.Proof)
+			proof.Proof[len(proof.Proof)/2] = model.FreshHash(4242)
+		} else if len(hs) > 0 {
+			hs = cloneHashes(hs)
+			hs[0] = model.FreshHash(4243)
+		}
+		call = func(in *Inst) error {
+			defer func() { recover() }() // a panic on hostile input is C04's business
+			in.Acc().Verify(cloneHashes(hs), cloneProof(proof), true)
+			return nil
+		}
+		post = func() {}
 	case "prune":
 		var hs []Hash
 		for _, s := range st.Set {
@@ -303,12 +325,21 @@ func (g *wgen) next(t *rapid.T, lim limits, ops []string) WStep {
 		g.branch++
 		return WStep{Op: "undo"}
 	case "verify", "ingest":
+		switch rapid.IntRange(0, 11).Draw(t, "odd-call") {
+		case 0: // a call with empty arguments: legal, must change nothing
+			return WStep{Op: op}
+		case 1: // a proof with a wrong hash, to be refused without leaving anything behind
+			return WStep{Op: "badverify", Set: genRequest(t, g.f)}
+		}
 		set := genRequest(t, g.f)
 		for _, s := range set {
 			g.tracked[s] = true
 		}
 		return WStep{Op: op, Set: set}
 	default: // prune
+		if rapid.IntRange(0, 11).Draw(t, "empty-prune") == 0 {
+			return WStep{Op: "prune"}
+		}
 		set := subsetP(t, g.trackedList(), 1, 2, "prune")
 		if len(set) == 0 {
 			set = g.trackedList()[:1]
